@@ -821,8 +821,7 @@ type c11Group struct {
 // enumerated completely (enum=true) or only sampled, depending on the tier:
 //
 //	quick:    1 service: retry limit 0..3; 2 services: retry limit 0..1
-//	thorough: 1 service: retry limit 0..3; 2 services: retry limit 0..2, and
-//	          retry limit 3 for the all-proxy (sequential) variant
+//	thorough: 1 service: retry limit 0..3; 2 services: retry limit 0..2
 //
 // the other groups (2 services with higher retry limits) are sampled.
 func c11Groups(thorough bool) (enum []c11Group, enumTotal int, sampled []c11Group, scripts map[int][][]string) {
@@ -846,7 +845,7 @@ func c11Groups(thorough bool) (enum []c11Group, enumTotal int, sampled []c11Grou
 					g := c11Group{nsvc: nsvc, R: R, wanted: wanted, variant: v, size: size}
 					full := nsvc == 1 || R <= 1
 					if thorough {
-						full = nsvc == 1 || R <= 2 || v == "proxy"
+						full = nsvc == 1 || R <= 2
 					}
 					if full {
 						g.start = enumTotal
@@ -959,7 +958,7 @@ func TestVerifC11(t *testing.T) {
 		run.Count("exhaustive_assignments_total", total)
 		sub := "1 writable service: retry limit 0..3; 2 writable services: retry limit 0..1"
 		if run.Thorough() {
-			sub = "1 writable service: retry limit 0..3; 2 writable services: retry limit 0..2 in all variants, retry limit 3 in the all-proxy variant only"
+			sub = "1 writable service: retry limit 0..3; 2 writable services: retry limit 0..2"
 		}
 		run.Note(fmt.Sprintf("exhaustive:true ONLY for this sub-space: {%s} x {wanted 1..3} x {all-proxy (sequential), all-disk (concurrent), and for 2 services with wanted>=2 all-disk with service 0 / service 1 forced to answer last} x every per-service outcome script over {200 rep 1, 200 rep 2, 200 no header, 400, 403, 503 | 408, 429, 500, 502, connection error}, scripts being enumerated up to the attempts a U2-obeying client can observe (j<=R transient failures then a final answer, or R+1 transient failures): %d assignments, split over the batches. Block content, uuids (hence probe order), API (PutB/PutHB/PutHR) and a read-only bystander are drawn per seed. The remaining 2-service groups are sampled (stream enum-sample), everything else is random (stream random).", sub, total))
 	}
